@@ -40,7 +40,7 @@ func init() {
 		Explain: "Decides on every path of consumer_group.go: Setup precedes every claim goroutine; release cancels, waits for the claims, then (once) runs Cleanup, closes the offset manager (final commit) and only then stops the heartbeat; Setup/Cleanup/ConsumeClaim are each invoked at exactly one site; Consume releases the session on every path after it was created (C07.order); claim goroutines are counted before they start and always Done/cancel, the background loops cancel the session on exit (C07.claim-wg); " +
 			"a claim starts at the offset manager's NextOffset (or the initial position) and falls back to the initial position only on ErrOffsetOutOfRange, reporting the offset actually used (C07.start-offset); join/sync/heartbeat/leave/commit requests carry the member id and generation the coordinator issued (C07.identity); both coordinator switches treat the same codes alike, a fenced member resets its id before rejoining and budgeted retries test the budget (C07.fenced); member state is accessed under the group lock, which Consume holds for the whole session (C07.lock). " +
 			"NOT covered: coverage of the log across sessions, commit-before-return under coordinator faults, the coordinator's own behaviour.",
-		Rules: []func(*Ctx){c07Order, c07ClaimWG, c07StartOffset, c07Identity, c07Fenced, c07Lock},
+		Rules: []func(*Ctx){c07Order, c07ClaimWG, c07StartOffset, c07Identity, c07Fenced, c07Lock, c07Dying},
 	})
 }
 
